@@ -42,6 +42,57 @@ def compress_indices():
         print('REPLAY: not reproduced (%d cases)' % cases)
 
 
+def _compress_spec(idx, length):
+    """The contract of compress_indices evaluated natively: (valid, expected row pointer)."""
+    idx = numpy.asarray(idx, dtype=int)
+    valid = bool((len(idx) == 0 or (idx.min() >= 0 and idx.max() < length)) and (numpy.diff(idx) >= 0).all())
+    want = numpy.array([int((idx < i).sum()) for i in range(length + 1)], dtype=int) if valid else None
+    return valid, want
+
+
+def _compress_case(idx, length):
+    """None if the real compress_indices honours its contract on this input, else a description."""
+    from nutils import numeric
+    idx = numpy.array(idx, dtype=int)
+    valid, want = _compress_spec(idx, length)
+    try:
+        c = numpy.asarray(numeric.compress_indices(idx, length))
+    except ValueError as e:
+        return 'valid input rejected with ValueError: %s' % e if valid else None
+    except Exception as e:
+        return 'raised %s: %s' % (type(e).__name__, e)
+    if not valid:
+        return 'invalid input (out of bounds or not monotone) accepted, returned %s' % c.tolist()
+    if c.shape != want.shape or (c != want).any():
+        return 'returned %s, the row pointer of the input is %s' % (c.tolist(), want.tolist())
+    return None
+
+
+def run_compress(m, clause):
+    """Replay of a counter-model of the deductive compress_indices contract; falls back to a small search."""
+    n = int(m.get('len(indices)', 0) or 0)
+    length = int(m.get('length', 0) or 0)
+    tried = []
+    if 0 <= n <= 12 and 0 <= length <= 50:
+        tried.append(([int(m.get('indices[%d]' % i, 0) or 0) for i in range(n)], length))
+    for idx, L in tried:
+        bad = _compress_case(idx, L)
+        print('model input: compress_indices(%s, %d): %s' % (idx, L, bad or 'as specified'))
+        if bad:
+            print('REPLAY: VIOLATION-CONFIRMED compress_indices(%s, %d) %s' % (idx, L, bad))
+            return
+    # the model could not be turned into a failing input (ghost/lemma obligation): search small inputs, guided by nothing but size
+    for L in range(0, 5):
+        for n in range(0, 5):
+            for idx in itertools.product(range(-1, L + 1), repeat=n):
+                bad = _compress_case(idx, L)
+                if bad:
+                    print('search (clause %s): compress_indices(%s, %d) %s' % (clause, list(idx), L, bad))
+                    print('REPLAY: VIOLATION-CONFIRMED compress_indices(%s, %d) %s' % (list(idx), L, bad))
+                    return
+    print('REPLAY: not reproduced (model input and all inputs with len <= 4, length <= 4 behave as specified)')
+
+
 def unique_mask():
     from nutils import evaluable
     for n in range(0, 6):
